@@ -191,10 +191,29 @@ CaseOfVb(c) ==
                 [label |-> "hand", tp |-> Sources(VbTp(c, TRUE), LMin), xcalls |-> [id \in {} |-> 0], alt |-> <<65, cSP>> \o VbBody(c, TRUE) \o <<cSP, 66>>]>>,
      expect |-> [ok |-> TRUE, anyoutcome |-> TRUE, out |-> <<>>, noout |-> TRUE, err |-> "", calls |-> [id \in {} |-> 0]]]
 
-Init == cs \in Cases \cup VbCases
+\* ---- tags the tokenizer reads on paths of its own: odd spacing after the tag name, keywords in capitals, a comparison in a do tag,
+\* a keyword inside a quoted name.  Whether such a tag is accepted at all is not C13's business -- but a dash does not change it,
+\* nor what the template renders (the dashed and the hand-trimmed source agree in outcome and output).
+OddTags == [ ifnl |-> <<"if\nx", "T", "{% endif %}">>, iftab |-> <<"if\tx", "T", "{% endif %}">>, ifparen |-> <<"if(x)", "T", "{% endif %}">>,
+             forIN |-> <<"for i IN [1, 2]", "T", "{% endfor %}">>, incWITH |-> <<"include 't1' WITH {'x': 1}", "", "">>,
+             impAS |-> <<"import 't2' AS L", "T", "">>, doeq |-> <<"do x == 1", "T", "">>, incwithname |-> <<"include 'a with b'", "", "">>,
+             setnl |-> <<"set\tz = 1", "T", "">>, plainif |-> <<"if x", "T", "{% endif %}">> ]
+OddCases == {[odd |-> k, dl |-> dl, dr |-> dr, ws |-> ws] : k \in DOMAIN OddTags, dl \in BOOLEAN, dr \in BOOLEAN, ws \in {"sp", "mix"}}
+OddPieces(c, hand) ==
+    <<C(<<65>> \o (IF hand /\ c.dl THEN <<>> ELSE VbWs(c.ws))), W(IF c.dl /\ ~hand THEN "{%-" ELSE "{%"), W(" "), W(OddTags[c.odd][1]), W(" "),
+      W(IF c.dr /\ ~hand THEN "-%}" ELSE "%}"), C((IF hand /\ c.dr THEN <<>> ELSE VbWs(c.ws)) \o <<66>>), W(OddTags[c.odd][2]), W(OddTags[c.odd][3]), C(<<32, 67>>)>>
+OddTp(c, hand) == ("main" :> OddPieces(c, hand)) @@ ("t1" :> <<W("<{{ x }}>")>>) @@ ("t2" :> <<W("{% macro m() %}m{% endmacro %}")>>) @@ ("a with b" :> <<W("AWB")>>)
+CaseOfOdd(c) ==
+    [prop |-> "C13", key |-> ToJson(c), tags |-> {"odd-tag", "odd:" \o c.odd, "ndash:" \o ToString((IF c.dl THEN 1 ELSE 0) + (IF c.dr THEN 1 ELSE 0))},
+     entry |-> "main", ctx |-> Ctx, rel |-> "same",
+     runs |-> <<[label |-> "dashed", tp |-> OddTp(c, FALSE), xcalls |-> [id \in {} |-> 0]],
+                [label |-> "hand", tp |-> OddTp(c, TRUE), xcalls |-> [id \in {} |-> 0]]>>,
+     expect |-> [ok |-> TRUE, anyoutcome |-> TRUE, out |-> <<>>, noout |-> TRUE, err |-> "", calls |-> [id \in {} |-> 0]]]
+
+Init == cs \in Cases \cup VbCases \cup OddCases
 Next == UNCHANGED cs
 Spec == Init /\ [][Next]_cs
-Emit == PrintT(ToJson(IF "vb" \in DOMAIN cs THEN CaseOfVb(cs) ELSE CaseOf(cs)))
+Emit == PrintT(ToJson(IF "vb" \in DOMAIN cs THEN CaseOfVb(cs) ELSE IF "odd" \in DOMAIN cs THEN CaseOfOdd(cs) ELSE CaseOf(cs)))
 
 \* model-level: with no dash the two formulations are the same source, and a dash never
 \* removes anything but whitespace from the expected output
@@ -203,5 +222,5 @@ OnlyWhitespaceRemoved ==
     LET full == Subst(Ref(cs).out, AllTexts([cs EXCEPT !.D = {}]))
         NonWs(s) == SelectSeq(s, LAMBDA ch : ch \notin WS)
     IN NonWs(Expected(cs)) = NonWs(full)
-ModelOK == "vb" \in DOMAIN cs \/ (Ref(cs).ok /\ NoDashIdentity /\ OnlyWhitespaceRemoved)
+ModelOK == "vb" \in DOMAIN cs \/ "odd" \in DOMAIN cs \/ (Ref(cs).ok /\ NoDashIdentity /\ OnlyWhitespaceRemoved)
 =============================================================================
